@@ -42,6 +42,12 @@ def _defaults(fn):
     for k in NONES:
         if k not in a or not (isinstance(a[k], ast.Constant) and a[k].value is None):
             raise AnchorMissing(f"{fn.name}: self.{k} = None")
+    # a derived field must be computed AFTER the fields it is derived from (dict `a` keeps the statement order)
+    order = {k: i for i, k in enumerate(a)}
+    for k, deps in (("fs", ("R", "sps")), ("dt", ("fs",)), ("f0", ("wavelength",))):
+        for d in deps:
+            if order[k] < order[d]:
+                raise AnchorMissing(f"{fn.name}: self.{k} is computed before self.{d} is set")
     extra = set(a) - {"sps", "R", "wavelength"} - set(DERIVED) - set(NONES)
     if extra:
         raise AnchorMissing(f"{fn.name}: unexpected attributes {sorted(extra)}")
